@@ -332,7 +332,8 @@ def apply_ref(doc, ops):
             _remove(doc, parts)
         elif o == "replace":
             _walk(doc, parts)
-            _remove(doc, parts)
+            if parts:
+                _remove(doc, parts)
             doc = _add(doc, parts, copy.deepcopy(op["value"]))
         elif o == "test":
             if _walk(doc, parts) != op["value"]:
@@ -351,6 +352,12 @@ def apply_ref(doc, ops):
 
 def op_menu(ws):
     nm = ws["channels"][0]["samples"][-1]["name"]
+    other = copy.deepcopy(ws)
+    other["channels"][0]["name"] = "replaced_" + other["channels"][0]["name"]
+    for o in other["observations"]:
+        if o["name"] == ws["channels"][0]["name"]:
+            o["name"] = other["channels"][0]["name"]
+    other["channels"][0]["samples"][0]["data"][0] += 1.5
     return [
         {"op": "replace", "path": "/channels/0/samples/0/data/0", "value": 3.25},
         {"op": "add", "path": "/channels/0/samples/0/modifiers/-", "value": {"name": "extra", "type": "normsys", "data": {"lo": 0.9, "hi": 1.1}}},
@@ -366,7 +373,18 @@ def op_menu(ws):
         {"op": "remove", "path": "/channels/7"},
         {"op": "replace", "path": "/nothing/here", "value": 1},
         {"op": "add", "path": "/channels/0/samples/0/data/9", "value": 1.0},
+        # whole-document replacement (RFC 6902: the empty pointer is the root), a patched-in channel with its observation,
+        # a new sample, and an operation whose result is not a workspace (sample without a name): the returned object must be
+        # the validated Workspace *of the patched document* (summaries included), not of the background
+        {"op": "replace", "path": "", "value": other},
+        {"op": "add", "path": "/channels/-", "value": {"name": "patched_in", "samples": [{"name": "psig", "data": [2.0, 3.0], "modifiers": [{"name": "mu", "type": "normfactor", "data": None}]}]}},
+        {"op": "add", "path": "/observations/-", "value": {"name": "patched_in", "data": [4.0, 6.0]}},
+        {"op": "add", "path": "/channels/0/samples/-", "value": {"name": "patched_sample", "data": list(ws["channels"][0]["samples"][0]["data"]), "modifiers": [{"name": "k_new", "type": "normfactor", "data": None}]}},
+        {"op": "remove", "path": "/channels/0/samples/0/name"},
     ]
+
+
+WS_SUMMARIES = ("channels", "samples", "parameters", "modifiers", "observations", "measurement_names", "channel_nbins", "version")
 
 
 def ev_apply(case):
@@ -411,6 +429,17 @@ def ev_apply(case):
                         issues.append(C.issue("C17:apply:type", f"apply returned {type(got).__name__}", **ctx))
                     if json.loads(json.dumps(got)) != ref:
                         issues.append(C.issue("C17:apply:result", "applied workspace differs from the RFC 6902 result", **ctx))
+                    try:
+                        refws = pyhf.Workspace(copy.deepcopy(ref))
+                    except Exception:
+                        refws = None
+                        issues.append(C.issue("C17:apply:invalid_result_returned", "apply returned a Workspace object for a patched document that is not a valid workspace", **ctx))
+                    if refws is not None and isinstance(got, pyhf.Workspace):
+                        for attr in WS_SUMMARIES:
+                            ncmp += 1
+                            if getattr(got, attr, None) != getattr(refws, attr, None):
+                                issues.append(C.issue(f"C17:apply:summary:{attr}", f"returned Workspace.{attr} is not that of the patched document: "
+                                                      f"{getattr(got, attr, None)!r} vs {getattr(refws, attr, None)!r}"[:200], **ctx))
                     applied += 1
                 elif ref_ok:
                     # pyhf may still refuse a schema-invalid result; check that the reference result is indeed not a valid workspace
